@@ -65,6 +65,7 @@ std::string nameFor(char L, int cls) {
     default: return "Z0";
   }
 }
+std::string nameDesc(int cls) { static const char* d[] = { "<L>7", "<L>1", "<L>2", "<L>9", "<other-letter>7", "Q7", "", "<L>3" }; return cls >= 0 && cls < 8 ? d[cls] : "?"; }
 const std::vector<std::string> kTexts = {
   /*0*/ "", /*1*/ "t", /*2*/ "@{X1|nomn}", /*3*/ "@{D1|nomn}", /*4*/ "@{D2|nomn} \xCE\xB2", /*5*/ "\xD1\x82\xD0\xB5\xD1\x80\xD0\xBC \xE2\x84\xAC",
   /*6*/ "@{X1|plur}", /*7*/ "@{X9|nomn}", /*8*/ "@{X7|nomn} X1",
@@ -399,7 +400,7 @@ struct SchemaSys {
       case EMPLACE: return std::string("Emplace(") + kKindName[op.a & 7] + "," + tab(kDefs, op.b) + ")";
       case ERASE: return "Erase(" + I(op.a) + ")";
       case SETEXPR: return "SetExpressionFor(" + I(op.a) + "," + tab(kDefs, op.b) + ")";
-      case SETALIAS: return "SetAliasFor(" + I(op.a) + ",name-class" + std::to_string(op.b) + "=" + q("<L>" + nameFor('L', op.b).substr(op.b <= 3 || op.b == 7 ? 1 : 0)) + "," + (op.c ? "substitute" : "keep-mentions") + ")";
+      case SETALIAS: return "SetAliasFor(" + I(op.a) + ",name-class" + std::to_string(op.b) + "=" + q(nameDesc(op.b)) + "," + (op.c ? "substitute" : "keep-mentions") + ")";
       case SETTERM: return "SetTermFor(" + I(op.a) + "," + tab(kTexts, op.b) + ")";
       case SETTEXT: return "SetDefinitionFor(" + I(op.a) + "," + tab(kTexts, op.b) + ")";
       case SETCONV: return "SetConventionFor(" + I(op.a) + "," + tab(kConvs, op.b) + ")";
